@@ -25,7 +25,11 @@ OP_BUDGET_S = float(os.environ.get("VERIF_OP_BUDGET_S", "5"))
 
 
 def guarded(func, *args):
-    """Run func under the per-operation wall-clock budget."""
+    """Run func under the per-operation wall-clock budget.  Re-entrant: a call made while a budget is
+    already running (an op's impl guarding one of its own steps) stays under the outer budget - it must
+    not cancel it."""
+    if signal.getitimer(signal.ITIMER_REAL)[0] > 0:
+        return func(*args)
     old = signal.signal(signal.SIGALRM, _alarm)
     signal.setitimer(signal.ITIMER_REAL, OP_BUDGET_S)
     try:
